@@ -43,7 +43,9 @@ def gen_spec(rng, fmt='NETCDF4', big=0.0):
     dims = []
     unl = None
     if nd and rng.random() < 0.6:
-        unl = rng.randrange(nd) if (fmt == 'NETCDF4' and rng.random() < 0.3) else 0
+        # the HDF5-based flavours allow the record dimension at any position
+        unl = rng.randrange(nd) if (fmt in ('NETCDF4', 'NETCDF4_CLASSIC') and
+                                    rng.random() < 0.3) else 0
     unl2 = None
     if fmt == 'NETCDF4' and unl is not None and nd >= 2 and rng.random() < 0.35:
         unl2 = rng.choice([i for i in range(nd) if i != unl])   # NETCDF4: several unlimited
@@ -153,7 +155,9 @@ def _gen_attr(rng):
     k = rng.randrange(6)
     if k == 0:
         return {'t': 'str', 'v': rng.choice(['ppb', 'a longer attribute value, with commas',
-                                             'K', 'degrees_north', 'x', 'CF-1.6'])}
+                                             'K', 'degrees_north', 'x', 'CF-1.6',
+                                             '\u00b5g/m\u00b3', '\u00b0C',
+                                             'Universit\u00e9 de Gen\u00e8ve', '\u03bcmol'])}
     if k == 1:
         return {'t': 'i4', 'v': rng.randrange(-1000, 1000)}
     if k == 2:
